@@ -73,6 +73,10 @@ fn lazy_body(ledger: bool) {
     };
     let clone_first: bool = kani::any();
     let c0 = if clone_first { Some(inner.clone()) } else { None };
+    // C13: a clone taken before anything was decoded still knows that its text has escapes
+    if let Some(c) = &c0 {
+        assert!(c.status == HasEsc::Yes);
+    }
     let r1 = inner.parse_from(raw);
     assert_eq!(r1, Some("x"));
     let p1 = r1.unwrap().as_ptr();
@@ -83,6 +87,7 @@ fn lazy_body(ledger: bool) {
     assert_eq!(r2.unwrap().as_ptr(), p1);
     // the clone taken after the first read shares it
     if let Some(c) = &c1 {
+        assert!(c.status == HasEsc::Yes);
         let rc = c.parse_from(raw);
         assert_eq!(rc.unwrap().as_ptr(), p1);
     }
